@@ -100,7 +100,10 @@ def handleL2 (j : Json) : Except String Json := do
   | .error _ => pure (Json.mkObj [("model", Json.mkObj modelJson)])
   | .ok oj =>
     let o ← parseBindObs oj
-    let aff := affected m o
+    -- C07, second sentence: arguments the model binds (one usable argument per input type)
+    -- must not be rejected by a statement Prepare accepted
+    let wrongReject : Bool := (match m.bind with | .ok _ => true | .error _ => false) && o.prepOk && !o.bindOk
+    let aff := affected m o ++ (if wrongReject then ["C07"] else [])
     -- hypothesis of the no-panic theorems (C18): every argument tree has the shape its type
     -- descriptors promise (`ArgWF`: an untyped nil, or `ValWF`, decided by `valWF`)
     let argsWF := args.all fun a => (match a with | .invalid => true | _ => false) || valWF tt 64 a
@@ -114,7 +117,7 @@ def handleL2 (j : Json) : Except String Json := do
        ("c02", Json.bool (literalsVerbatim segs o)),
        ("c04", Json.bool (holdsC04rej m o && literalsVerbatim segs o)),
        ("c05", Json.bool (!tagsClean tt || holdsC05 segs o)),
-       ("c07", Json.bool (holdsC07 m o)),
+       ("c07", Json.bool (holdsC07 m o && !wrongReject)),
        ("c08", Json.bool (holdsC08 m o))])
 
 end Driver
